@@ -22,7 +22,7 @@ from .accfg_common import (
 )
 
 ID = "C04"
-BUDGET = {"quick": 2500, "thorough": 50000}
+BUDGET = {"quick": 5000, "thorough": 50000}
 K_ENVS = {"quick": 4, "thorough": 8}
 MIN_NONTRIVIAL = {"quick": 150, "thorough": 1500}
 RULE = (
